@@ -167,12 +167,20 @@ func (a *A) ruleTakeKeep(W *types.Named, fn *ssa.Function, sp tkSpec) int {
 			if sp.slide && kind == "keep" {
 				roles = []string{"t", "S", "N"}
 			}
+			if sp.slide && kind == "take" {
+				// the next interval's start may take part in the decision (a single-pass extraction that
+				// compares with Start+slide): with slide > size it lies beyond End
+				roles = []string{"t", "S", "E", "N"}
+			}
 			var slotBase string
 			spec := OrdSpec{
 				Roles: roles,
 				Norm:  norm,
 				Invariant: func(r map[string]int, _ map[string]bool) bool {
 					if _, ok := r["N"]; ok {
+						if _, hasE := r["E"]; hasE {
+							return r["S"] < r["N"] && r["S"] < r["E"]
+						}
 						return r["S"] < r["N"]
 					}
 					return r["S"] < r["E"]
